@@ -118,7 +118,7 @@ def py_job(script, tag, name, replay_only=False):
 
 Q = 6000
 PROPS = {
-    "C01": dict(jobs=W([("plain", Q, 50), ("all", Q, 50)], [("plain", 40000, 90, 6), ("all", 40000, 90, 6), ("overlap", 40000, 90, 4)], [("plain", 20000, 70, 2)], fuzz=("all", 4000, 120000)),
+    "C01": dict(jobs=W([("plain", Q, 50), ("all", Q, 50), ("seq", Q, 50)], [("plain", 40000, 90, 5), ("all", 40000, 90, 5), ("overlap", 40000, 90, 3), ("seq", 40000, 90, 3)], [("plain", 20000, 70, 2)], fuzz=("all", 4000, 120000)),
                 rule=W_RULE + "non-trivial (C01): the history contains a call made after an expectation on that function was released or saturated, or on a moved mock, or rejected while a live expectation exists on the function.",
                 assumptions=W_ASSUME),
     "C02": dict(jobs=W([("overlap", Q, 50), ("seq", Q, 50)], [("overlap", 40000, 90, 8), ("seq", 40000, 90, 6), ("all", 40000, 90, 2)], [("overlap", 20000, 70, 2)]),
